@@ -390,3 +390,121 @@ Example C13_hyp_bad_host_byte :
   = (true, [true; true; true; true; true; true; true; true; true],
      [false; false; false; false; false; false; false; false]).
 Proof. vm_compute. reflexivity. Qed.
+
+(* ========================================================================================== *)
+(* the IPv6 oracle instantiated by the executable model of net/netip (Model/Netip6.v, compared  *)
+(* with the real library on every run by the `netip` family): the two side conditions on        *)
+(* bracketed hosts are theorems of the model, and "canonical RFC 5952 text" is computed          *)
+Require Import Model.Netip6 Proofs.Netip6P Proofs.Netip6GrammarP.
+
+(* the model never runs out of fuel, a parse yields eight groups, their canonical text has 2..39 bytes *)
+Theorem C13_netip6_fuel : forall a, parse6 a <> NoFuel.
+Proof. exact parse6_fuel. Qed.
+Print Assumptions C13_netip6_fuel.
+
+Theorem C13_netip6_eight_groups : forall a gs, parse6 a = Groups gs -> length gs = 8%nat.
+Proof. exact parse6_len. Qed.
+Print Assumptions C13_netip6_eight_groups.
+
+Theorem C13_netip6_render_length : forall gs, length gs = 8%nat -> (2 <= length (render6 gs) <= 39)%nat.
+Proof. exact render6_len. Qed.
+Print Assumptions C13_netip6_render_length.
+
+Theorem C13_netip6_canonical_text : forall s canon lb,
+  ip6_model s = IPOk canon lb ->
+  exists gs, length gs = 8%nat /\ canon = render6 gs /\ lb = is_loopback6 gs /\ is_4in6 gs = false.
+Proof. exact ip6_model_ok_inv. Qed.
+Print Assumptions C13_netip6_canonical_text.
+
+Theorem C13_netip6_bracket_content_length : forall ace g c,
+  g_valid ace ip6_model g = true -> g_host g = GIPv6 c -> (2 <= length c <= 39)%nat.
+Proof. exact g_valid_ip6_len. Qed.
+Print Assumptions C13_netip6_bracket_content_length.
+
+Theorem C13_netip6_ip6_min : forall ace g, g_valid ace ip6_model g = true -> g_ip6_min g = true.
+Proof. exact g_valid_ip6_min. Qed.
+Print Assumptions C13_netip6_ip6_min.
+
+Theorem C13_netip6_ip6_max : forall ace g, g_valid ace ip6_model g = true -> g_ip6_max g = true.
+Proof. exact g_valid_ip6_max. Qed.
+Print Assumptions C13_netip6_ip6_max.
+
+(* 1. and 2. without the side conditions *)
+Theorem C13_documented_forms_accepted_netip6 : forall ace g,
+  g_valid ace ip6_model g = true ->
+  parse_pattern ace ip6_model (Spec.Grammar.render g) = inl (expected ip6_model g).
+Proof. exact documented_forms_accepted_netip6. Qed.
+Print Assumptions C13_documented_forms_accepted_netip6.
+
+Theorem C13_self_match_netip6 : forall ace g,
+  g_valid ace ip6_model g = true -> g_wild g = false -> g_port g <> GAnyPort ->
+  exists o, parse (Spec.Grammar.render g) = Some o /\
+            tree_contains (tree_insert empty_tree (expected ip6_model g)) o = true.
+Proof. exact self_match_netip6. Qed.
+Print Assumptions C13_self_match_netip6.
+
+(* round trip: the canonical text (Addr.String) of ANY eight 16-bit groups parses back to exactly
+   those groups; hence every canonical text of an address that is not IPv4-mapped is accepted as
+   itself, and is a documented-valid bracketed host ("RFC 5952 canonical form" is computed, not
+   relative to an oracle) *)
+Example g16_def : forall gs, g16 gs = Forall (fun x => x < 65536) gs.
+Proof. reflexivity. Qed.
+
+Theorem C13_netip6_parse_render : forall gs, length gs = 8%nat -> g16 gs -> parse6 (render6 gs) = Groups gs.
+Proof. exact parse6_render. Qed.
+Print Assumptions C13_netip6_parse_render.
+
+Theorem C13_netip6_round_trip : forall gs, length gs = 8%nat -> g16 gs -> is_4in6 gs = false ->
+  ip6_model (render6 gs) = IPOk (render6 gs) (is_loopback6 gs).
+Proof. exact ip6_model_round_trip. Qed.
+Print Assumptions C13_netip6_round_trip.
+
+Theorem C13_netip6_parse_addr_round_trip : forall gs, length gs = 8%nat -> g16 gs -> is_4in6 gs = false ->
+  parse_addr ip6_model (render6 gs) = IPOk (render6 gs) (is_loopback6 gs).
+Proof. exact parse_addr_round_trip. Qed.
+Print Assumptions C13_netip6_parse_addr_round_trip.
+
+Theorem C13_canonical_ipv6_valid : forall ace sch p gs,
+  scheme_ok sch = true -> beqb sch (b "https") = false -> port_ok sch p = true ->
+  length gs = 8%nat -> g16 gs -> is_4in6 gs = false ->
+  g_valid ace ip6_model {| g_scheme := sch; g_wild := false; g_host := GIPv6 (render6 gs); g_port := p |} = true.
+Proof. exact canonical_ipv6_valid. Qed.
+Print Assumptions C13_canonical_ipv6_valid.
+
+Theorem C13_canonical_ipv6_accepted : forall ace sch p gs,
+  scheme_ok sch = true -> beqb sch (b "https") = false -> port_ok sch p = true ->
+  length gs = 8%nat -> g16 gs -> is_4in6 gs = false ->
+  let g := {| g_scheme := sch; g_wild := false; g_host := GIPv6 (render6 gs); g_port := p |} in
+  parse_pattern ace ip6_model (Spec.Grammar.render g) = inl (expected ip6_model g).
+Proof. exact canonical_ipv6_accepted. Qed.
+Print Assumptions C13_canonical_ipv6_accepted.
+
+Example C13_hyp_round_trip :
+  let gs := [8193; 3512; 0; 0; 1; 0; 0; 1] in
+  (length gs, forallb (fun x => x <? 65536) gs, is_4in6 gs, render6 gs, ip6_model (render6 gs),
+   is_4in6 [0; 0; 0; 0; 0; 65535; 258; 772], render6 [0; 0; 0; 0; 0; 0; 0; 1], is_loopback6 [0; 0; 0; 0; 0; 0; 0; 1])
+  = (8%nat, true, false, b "2001:db8::1:0:0:1", IPOk (b "2001:db8::1:0:0:1") false, true, b "::1", true).
+Proof. vm_compute. reflexivity. Qed.
+
+(* non-vacuity: the documented examples are valid under the model too (the IPv6 ones now by computation) *)
+Example C13_hyp_valid_examples_netip6 :
+  forallb (fun g => g_valid acet ip6_model g) valid_examples = true.
+Proof. vm_compute. reflexivity. Qed.
+
+Definition show6 (s : bytes) : bytes :=
+  match ip6_model s with
+  | IPErr => b "err" | IPZone => b "zone" | IP4in6 => b "v4in6"
+  | IPOk c lb => c ++ (if lb then b " loopback" else [])
+  end.
+
+(* the model on concrete literals (each of them is also a case of the `netip` family) *)
+Example C13_ex_netip6 :
+  map show6 [ b "::1"; b "::"; b "2001:DB8:0:0:1:0:0:1"; b "1:0:0:2:0:0:0:3"; b "1:0:0:2:0:0:3:4"; b "1:2:3:4:5:6:7::"; b "1:2:3:0:5:6:7:8";
+              b "0:0:0:0:0:0:0:1"; b "64:ff9b::1.2.3.4"; b "1:2:3:4:5:6:1.2.3.4"; b "::ffff:1.2.3.4"; b "::ffff:102:304"; b "fe80::1%eth0";
+              b "fe80::1%"; b "1:2:3:4:5:6:7"; b "1:2:3:4:5:6:7:8:9"; b "::1:2:3:4:5:6:7:8"; b "1::2::3"; b ":::"; b "1:"; b ":1"; b "12345::"; b "::g";
+              b "1:2:3:4:5:6:7:1.2.3.4"; b "1:2:3:4:5:1.2.3.4"; b "::01.2.3.4"; b "*::1"; b "ffff:ffff:ffff:ffff:ffff:ffff:ffff:ffff" ]
+  = [ b "::1 loopback"; b "::"; b "2001:db8::1:0:0:1"; b "1:0:0:2::3"; b "1::2:0:0:3:4"; b "1:2:3:4:5:6:7:0"; b "1:2:3:0:5:6:7:8";
+      b "::1 loopback"; b "64:ff9b::102:304"; b "1:2:3:4:5:6:102:304"; b "v4in6"; b "v4in6"; b "zone";
+      b "err"; b "err"; b "err"; b "err"; b "err"; b "err"; b "err"; b "err"; b "err"; b "err";
+      b "err"; b "err"; b "err"; b "err"; b "ffff:ffff:ffff:ffff:ffff:ffff:ffff:ffff" ].
+Proof. vm_compute. reflexivity. Qed.
